@@ -10,6 +10,7 @@ import re
 from .. import build, impl, planted, report
 
 SHELLS = planted.SHELLS
+POOL = ['FILE', 'OUTPUT', 'LOG', 'OPT', 'ROOT', 'THING', 'OPTION', 'ARG', 'NAME', 'VALUE', 'Y', 'Z', 'A', 'B']
 
 MANIFEST = dict(
     text=('Props/C14.v: the Gallina model of the validation stage is natural in spans (from_grammar (map_spans f g) = map_spans f '
@@ -84,6 +85,17 @@ def run(ctx, res):
     quick = ctx['tier'] == 'quick'
     n, k = (40, 3) if quick else (2500, 8)
     cases = []
+    # a built-in name redefined by the user and referenced from inside another definition, for every
+    # name of a pool (hash-map iteration order over definitions depends on the names) and both orders
+    for b in ('PATH', 'DIRECTORY'):
+        for m in POOL:
+            for own in ('{{{ echo own }}}', 'own1 | own2'):
+                stmts = ['cmd a <%s> | b;' % m, '<%s> ::= --dir <%s> | c;' % (m, b), '<%s> ::= %s;' % (b, own)]
+                if quick and r.random() < 0.5:
+                    continue
+                base = '\n'.join(stmts) + '\n'
+                swapped = '\n'.join([stmts[0], stmts[2], stmts[1]]) + '\n'
+                cases.append((stmts, base, [swapped] + [variant(stmts, r) for _ in range(k - 1)]))
     for i in range(n):
         stmts = planted.warn_case(r) if r.random() < 0.5 else planted.Clean(r, depth=r.choice([2, 3])).build(nvariants=r.choice([1, 2]))
         base = '\n'.join(stmts) + '\n'
